@@ -262,10 +262,8 @@ impl StandardLibrary {
                 }
 
                 FieldKind::Struct(struct_name) => {
-                    let strukt = self
-                        .structs
-                        .get(struct_name)
-                        .unwrap_or_else(|| panic!("struct `{struct_name}` not found"));
+                    // A field that names a struct the library does not define leads nowhere
+                    let strukt = self.structs.get(struct_name)?;
 
                     last_extracted_struct = extract_into_tree(strukt);
                     current_names_to_fields = strukt;
